@@ -22,6 +22,10 @@ GENERIC_PATTERNS = [
     "import {{m}}", "{{a}} and {{b}}", "lambda: {{x}}", "({{a}}, {{b}})", "not {{x}}",
 ]
 BASES = [
+    # a decorator as the very first character of the file, spaced and parenthesised decorators, an `@` that is only a comment
+    "@decorator\ndef first(a):\n    return a\n\n\n@ spaced.deco\nclass C:\n    pass\n\n\n@(paren_deco)\nasync def g():\n    pass  #@\n\n\ndef h(): pass  #@\n",
+    # several multi-byte tokens on one line, before and at the matched position
+    "ä = 1; é = ä + 1\ns = \"ää\"; print(\"ö\", s)\nnaïve = f(ä, \"日本\", é); r = [é, ä]\n",
     "import os\n\n\n@decorator\n@other.deco(1)\ndef f(a, b=2):\n    x = g(a) + h(b, [a, b])\n    if x:\n        return x.y.z\n    return (a,\n            b)\n\n\nclass K(Base):\n    @staticmethod\n    def m():\n        return [i for i in range(3)]\n\n\nresult = f(1)\nprint(result, K.m())\n",
     "x = 1\ny = x + 2\nz = [x, y, foo(x, y)]\nfor i in z:\n    print(i)\n    if i == 2:\n        continue\nwhile x:\n    x = x - 1\nelse:\n    y = 0\n",
     "def outer():\n    def inner(q):\n        return q.attr[0]\n    values = (\n        inner(1),\n        inner(2),\n    )\n    return values\n\nwith open(name) as fh:\n    data = fh.read()\n",
